@@ -955,8 +955,10 @@ class IteratorProxy(BaseProxy):
         return self._callmethod('close', args)
 
 
-@add_proxy_methods('__getattribute__')
 class NamespaceProxy(BaseProxy):
+    # Do not generate a forwarding `__getattribute__` method on this class:
+    # that would intercept every attribute access on the proxy object itself
+    # (including `self._token` in `__init__`) and recurse forever.
     def __getattr__(self, key):
         if key[0] == '_':
             return object.__getattribute__(self, key)
